@@ -192,7 +192,11 @@ def grid_cases(ctx):
         S = r.choice([N, N + 1, N + 2])
         fmt = r.choice(["sdmf", "sdmf", "mdmf"])
         verify = r.random() < 0.5
-        scenario = r.choice(["intact", "delete", "delete", "stale", "newer-unrecoverable", "corrupt", "far-stale", "far-stale"])
+        scenario = r.choice(["intact", "delete", "delete", "stale", "newer-unrecoverable", "newer-unrecoverable", "corrupt", "far-stale", "far-stale",
+                             "competing", "competing"])
+        if scenario == "competing" and N < 2 * k:
+            k, N = r.choice([(2, 4), (2, 5), (1, 3), (3, 6)])
+            S = r.choice([N, N + 1])
         if scenario == "far-stale":
             # the newest version survives only on the servers a 2k-server read survey reaches last
             k, N = r.choice([(3, 10), (2, 8), (3, 9)])
@@ -209,6 +213,7 @@ def grid_cases(ctx):
             snap1 = {(sh.server, sh.shnum): g.read_share(sh) for sh in g.find_shares(node.get_uri())}
             newest = b"version-one"
             corrupted = set()
+            content_by_ver = {share_version(g, g.find_shares(node.get_uri())[0]): b"version-one"}
             if scenario == "delete":
                 shs = g.find_shares(node.get_uri())
                 r.shuffle(shs)
@@ -218,6 +223,7 @@ def grid_cases(ctx):
                 g.run(g.mutable_overwrite(node, b"version-two!"))
                 newest = b"version-two!"
                 cur = {(sh.server, sh.shnum): sh for sh in g.find_shares(node.get_uri())}
+                content_by_ver[share_version(g, next(iter(cur.values())))] = b"version-two!"
                 keys = sorted(kk for kk in snap1 if kk in cur)
                 r.shuffle(keys)
                 if scenario == "far-stale":
@@ -234,6 +240,27 @@ def grid_cases(ctx):
                         chosen = keys[:-1]
                 for kk in chosen:
                     g.write_share(cur[kk], snap1[kk])
+            elif scenario == "competing":
+                # two different versions with the SAME sequence number, both recoverable: publish 2A, roll every share back
+                # to version 1, publish 2B, then put 2A back on some of the shares
+                g.run(g.mutable_overwrite(node, b"version-twoA"))
+                curA = {(sh.server, sh.shnum): sh for sh in g.find_shares(node.get_uri())}
+                snapA = {kk: g.read_share(sh) for kk, sh in curA.items()}
+                content_by_ver[share_version(g, next(iter(curA.values())))] = b"version-twoA"
+                for kk, sh in curA.items():
+                    if kk in snap1:
+                        g.write_share(sh, snap1[kk])
+                    else:
+                        g.delete_share(sh)
+                g.run(g.mutable_overwrite(node, b"version-twoB"))
+                cur = {(sh.server, sh.shnum): sh for sh in g.find_shares(node.get_uri())}
+                content_by_ver[share_version(g, next(iter(cur.values())))] = b"version-twoB"
+                newest = None
+                keys = sorted(kk for kk in cur if kk in snapA)
+                r.shuffle(keys)
+                nA = r.randrange(k, max(k + 1, len(keys) - k + 1))
+                for kk in keys[:nA]:
+                    g.write_share(cur[kk], snapA[kk])
             elif scenario == "corrupt":
                 shs = g.find_shares(node.get_uri())
                 sh = shs[r.randrange(len(shs))]
@@ -269,35 +296,37 @@ def grid_cases(ctx):
             top_rec = recov[-1] if recov else None
             newer_unrec = [v for v, shs in byver.items() if len(shs) < k and (top_rec is None or v[0] > top_rec[0])]
             before = {(sh.server, sh.shnum): g.read_share(sh) for sh in g.find_shares(node.get_uri())}
-            rep = g.run(node.repair(cr, force=force), outcome=True)
-            ctx.case((seed, scenario, "repair", force), kind="grid-repair:" + scenario)
+            # entry point: the repairer directly, or the check-and-repair operation (which must not force)
+            via = "repair" if force else r.choice(["repair", "check_and_repair"])
+            case["via"] = via
+            if via == "repair":
+                rep = g.run(node.repair(cr, force=force), outcome=True)
+                succeeded = rep.status == "ok" and rep.value.get_successful()
+            else:
+                rep = g.run(node.check_and_repair(Monitor(), verify=verify), outcome=True)
+                succeeded = rep.status == "ok" and rep.value.get_repair_attempted() and rep.value.get_repair_successful()
+            ctx.case((seed, scenario, via, force), kind="grid-%s:%s" % (via, scenario))
             if top_rec is None:
                 continue
-            if newer_unrec and not force:
+            needs_merge = len([v for v in recov if v[0] == top_rec[0]]) > 1
+            if (newer_unrec or needs_merge) and not force:
                 after = {(sh.server, sh.shnum): g.read_share(sh) for sh in g.find_shares(node.get_uri())}
-                if rep.status == "ok" and rep.value.get_successful():
-                    ctx.oracle_fail("grid-repair-discarded-newer", "repair without force succeeded although an unrecoverable newer version (seq %s) exists" % [v[0] for v in newer_unrec], case=case)
+                if succeeded and newer_unrec:
+                    ctx.oracle_fail("grid-repair-discarded-newer", "%s without force succeeded although an unrecoverable newer version (seq %s) exists" % (via, [v[0] for v in newer_unrec]), case=case)
+                elif succeeded:
+                    ctx.oracle_fail("grid-repair-merged-competing", "%s without force succeeded although two recoverable versions share seqnum %d" % (via, top_rec[0]), case=case)
                 elif after != before:
-                    ctx.oracle_fail("grid-refused-repair-changed-shares", "repair refused (needs force) but shares on disk changed", case=case)
+                    ctx.oracle_fail("grid-refused-repair-changed-shares", "%s refused (needs force) but shares on disk changed" % via, case=case)
                 else:
                     ctx.trace(1)
                 continue
-            if rep.status != "ok" or not rep.value.get_successful():
+            if not succeeded:
                 # the property constrains what a *successful* repair leaves behind; a repair that gives up
                 # (e.g. its MODE_READ re-survey with k=1 does not locate the newest version) is not a violation
                 ctx.count("grid-repair-not-successful:%s" % (rep.error or rep.status))
                 continue
-            want_content = b"version-two!" if top_rec[0] == max(v[0] for v in byver) and newest == b"version-two!" and scenario != "newer-unrecoverable" else None
             rd = g.run(g.mutable_read(node), outcome=True)
-            expected_content = {1: b"version-one"}.get(top_rec[0])
-            # contents of the best recoverable version before the repair
-            best_content = b"version-two!" if (newest == b"version-two!" and top_rec[0] == max(v[0] for v in byver if len(byver[v]) >= k) and top_rec[0] != min(v[0] for v in byver)) else (b"version-one" if len(byver) == 1 and newest == b"version-one" else None)
-            if len(byver) == 1:
-                best_content = newest
-            elif top_rec[0] == max(v[0] for v in byver):
-                best_content = newest
-            else:
-                best_content = b"version-one"
+            best_content = content_by_ver.get(top_rec)
             if rd.status != "ok" or rd.value != best_content:
                 ctx.oracle_fail("grid-repair-changed-contents", "after repair the file reads %r, best version before repair was %r" % (rd.value, best_content), case=case,
                                 expected=best_content, observed=rd.value)
